@@ -476,7 +476,7 @@ class TransactionManager(Elaboratable):
             if dep in group:
                 return enable_call(group, TBody(dep))
             enables = [
-                call.enable
+                enable_call(group, transaction) & call.enable
                 for transaction in group
                 for call in method_map.info_by_call.get((transaction, MBody(dep)), [])
             ]
